@@ -15,7 +15,7 @@ KINDS = [
     (r"missing required fields", "missing_fields"), (r"could not evaluate configuration key", "config_key"),
     (r"branch too far", "branch_too_far"), (r"invalid instruction", "invalid_instruction"),
     (r"unknown identifier", "unknown_identifier"), (r"does not evaluate to an integer", "not_integer"),
-    (r"does not evaluate to a string", "not_string"), (r"cannot apply operation", "eval:strop"),
+    (r"does not evaluate to a string", "not_string"), (r"cannot apply operation .* on a number and a string", "eval:mixedop"), (r"cannot apply operation", "eval:strop"),
     (r"unknown function", "eval:unknown_function"), (r"expected \d+ arguments", "eval:arg_count"),
     (r"could not interpolate", "eval:interpolate"), (r"cannot import an already defined symbol", "import_defined"),
     (r"cannot align", "align"), (r"is not a valid name", "invalid_name"), (r"did not converge", "not_converged"),
@@ -236,6 +236,9 @@ def run(chk):
             dist["model_aborted"][st] = dist["model_aborted"].get(st, 0) + 1
         if not r.get("ok") or "ast" not in r:
             dist["failed"] += 1
+            if expect and expect.get("data") is not None:
+                chk.oracle_failure(None, "%s: regression witness no longer assembles: %s (%s)" % (
+                    name, [e["msg"] for e in (r.get("errors") or [])][:3] or r.get("panic"), expect.get("why", "")), {"files": files, "opts": opts})
             if count:
                 chk.count(1, 0)
             return
